@@ -203,7 +203,11 @@ func c13Sentinel(p *load.Program, r *core.Report, sendFn *ssa.Function) {
 	}
 	chk(sendFn, "send treats selector 0 as round-robin", func(v ssa.Value) bool {
 		pa, ok := v.(*ssa.Parameter)
-		return ok && pa.Name() == "order"
+		if !ok {
+			return false
+		}
+		b, isB := pa.Type().Underlying().(*types.Basic)
+		return isB && b.Kind() == types.Uint8
 	})
 	serve := p.Func("net/proto", "connection", "serve")
 	chk(serve, "serve treats order byte 0 as round-robin", func(v ssa.Value) bool {
